@@ -89,7 +89,10 @@ def rand_slice(rng, nflow):
 
 
 def rand_simple(rng):
-    k = rng.choice(["call", "call", "call", "var", "var", "filter", "filter", "filtersel"])
+    k = rng.choice(["call", "call", "call", "var", "var", "filter", "filter", "filtersel",
+                    "statecall"])
+    if k == "statecall":
+        return ["statecall"]
     if k == "filtersel":
         return ["filtersel", rng.choice(PREDN), rng.choice([2, 3, 4])]
     if k == "call":
@@ -268,6 +271,49 @@ def drivers(r, obs):
         return (v[1] for v in got if v[0] == "A")
     for pos in (1, 2, 3):
         res.append(("split-run-among-mutating-branches", outcome(lambda pos=pos: d_split4(pos))))
+
+    # the same with the Split driven by fill and compute (a Split of fill/compute branches used
+    # as an accumulator: nested in a branch of another Split, inside a FillComputeSeq, ...)
+    def d_split5(pos):
+        import lena.variables
+        pre, acc, post = build_chain(r)
+        FCS = lena.core.FillComputeSeq
+        others = [
+            FCS(gen.func("ctx:zz"), lena.variables.Variable("mut", gen.DataFn("id")),
+                lena.flow.StoreFilled(), gen.Tag("M1")),
+            FCS(lena.variables.Variable("mut2", gen.DataFn("id"), type="t2"), gen.func("ctx:yy"),
+                lena.flow.StoreFilled(), gen.Tag("M2")),
+            FCS(gen.func("ctx:xx"), lena.flow.StoreFilled(), gen.Tag("M3")),
+        ]
+        branches = others[:pos] + [FCS(*(pre + [acc] + post + [gen.Tag("A")]))] + others[pos:]
+        sp = lena.core.Split(branches)
+        for v in flow():
+            try:
+                sp.fill(v)
+            except lena.core.LenaStopFill:
+                break
+        return (v[1] for v in sp.compute() if v[0] == "A")
+    for pos in (0, 1, 3):
+        res.append(("split-fill-among-mutating-branches", outcome(lambda pos=pos: d_split5(pos))))
+
+    # deep copies of one fill-driven chain (what SplitIntoBins / MapBins / Vectorize make for
+    # every bin), filled one after the other: each copy computes what a fresh chain computes
+    def d_copies(which):
+        import copy
+        pre, acc, post = build_chain(r)
+        master = lena.core.FillComputeSeq(*(pre + [acc] + post))
+        copies = [copy.deepcopy(master), copy.deepcopy(master)]
+        outs = []
+        for c in copies:
+            for v in flow():
+                try:
+                    c.fill(v)
+                except lena.core.LenaStopFill:
+                    break
+            outs.append(list(c.compute()))
+        return outs[which]
+    for which in (0, 1):
+        res.append(("deep-copied-fill-compute-seq", outcome(lambda w=which: d_copies(w))))
     return res
 
 
